@@ -42,16 +42,42 @@ def call(c):
             for k in ('rerun', 'skyversion', 'firstfield'):
                 if a.get(k) is not None:
                     kw[k] = conv(a[k])
-            r = sdss_objid(conv(a['run']), conv(a['camcol']), conv(a['field']), conv(a['objnum']), **kw)
-            return {'ok': [int(x) for x in r], 'dtype': str(r.dtype)}
+            pa = [conv(a['run']), conv(a['camcol']), conv(a['field']), conv(a['objnum'])]
+            allargs = pa + list(kw.values())
+            before = [x.copy() if isinstance(x, np.ndarray) else x for x in allargs]
+            r = sdss_objid(*pa, **kw)
+            out = {'ok': [int(x) for x in r], 'dtype': str(r.dtype)}
+            if any(isinstance(x, np.ndarray) and not np.array_equal(x, y) for x, y in zip(allargs, before)):
+                out['inputs_modified'] = ['some array argument']
+            try:
+                r2 = sdss_objid(*pa, **kw)
+                if [int(x) for x in r2] != out['ok']:
+                    out['repeat_differs'] = [int(x) for x in r2]
+            except Exception as e2:  # noqa: BLE001
+                out['repeat_differs'] = type(e2).__name__
+            return out
         if f == 'spec':
             a = c['args']
             kw = {}
             for k in ('line', 'index'):
                 if a.get(k) is not None:
                     kw[k] = conv(a[k])
-            r = sdss_specobjid(conv(a['plate']), conv(a['fiber']), conv(a['mjd']), conv(a['run2d']), **kw)
-            return {'ok': [int(x) for x in r], 'dtype': str(r.dtype)}
+            pa = [conv(a['plate']), conv(a['fiber']), conv(a['mjd']), conv(a['run2d'])]
+            before = [x.copy() if isinstance(x, np.ndarray) else x for x in pa]
+            r = sdss_specobjid(*pa, **kw)
+            out = {'ok': [int(x) for x in r], 'dtype': str(r.dtype)}
+            # the caller's arrays must not be modified, and a second call with the very same objects must agree
+            changed = [n for n, x, y in zip(('plate', 'fiber', 'mjd', 'run2d'), pa, before)
+                       if isinstance(x, np.ndarray) and not np.array_equal(x, y)]
+            if changed:
+                out['inputs_modified'] = changed
+            try:
+                r2 = sdss_specobjid(*pa, **kw)
+                if [int(x) for x in r2] != out['ok']:
+                    out['repeat_differs'] = [int(x) for x in r2]
+            except Exception as e2:  # noqa: BLE001
+                out['repeat_differs'] = type(e2).__name__
+            return out
         if f == 'unobj':
             ids = c['ids']
             arr = np.array([str(i) for i in ids]) if c.get('as_str') else np.array(ids, dtype=np.int64)
